@@ -202,6 +202,12 @@ def setup():
         return 3
     n = len(load_obligations())
     print("contract harnesses:", n)
+    # CPython cross-check of the symbolic executor on stdlib-only functions of the tree: a mismatch means the engine mis-models Python
+    p = subprocess.run([sys.executable, os.path.join(ROOT, "tools", "engine_crosscheck.py")], cwd=ROOT, env=dict(os.environ), capture_output=True, text=True)
+    print((p.stdout.strip().splitlines() or [p.stderr[-300:]])[-1])
+    if p.returncode != 0:
+        print(p.stdout[-2000:])
+        return 3
     return 0 if n > 0 else 3
 
 
